@@ -142,6 +142,8 @@ def rebalance_algo(chk, pid):
 
 
 def strategy_rebalance(chk, pid):
+    core_rules.public_signature(chk, "StrategyBase", "rebalance")
+    core_rules.public_signature(chk, "StrategyBase", "close")
     R = Roles(chk.prog)
     fi = chk.prog.func(CORE, "StrategyBase", "rebalance")
     S = chk.summary(CORE, "StrategyBase", "rebalance", host="StrategyBase", no_inline=("close", "allocate", "transact", "_create_child_if_needed", "update"))
@@ -398,3 +400,6 @@ def run(chk):
     rebalance_over_time(chk, "C06")
     from . import backtest_rules
     backtest_rules.adjust_call_sites(chk, "C06")  # capital injected before Rebalance must be visible in the base it captures
+    from .c05 import settings_reach_every_node
+
+    settings_reach_every_node(chk, "C06")  # exact targets need the fractional mode on every security of the tree
